@@ -113,3 +113,12 @@ info('C08',
      ['everything here is numerical: this family contributes no discharged obligation for C08 beyond the shared sign-algebra '
       'obligations of C10/C12; infinite and segment states are not compared'],
      [])
+info('C09',
+     'B (bounded, not proof): apply_local_op/apply_product_op (incl. fermionic operators with JW strings, norm tracked), swap_sites, '
+     'permute_sites (dense permutation with fermionic signs, convention pinned by tests/test_mps.py: old site i moves to perm[i]), '
+     'add, group_sites+group_split, enlarge_chi, compress_svd (infidelity <= 2*reported eps), spatial_inversion (reversal, involution) '
+     'on random finite MPS of all site families against the dense state; infinite MPS in forms A/B/C: roll/enlarge unit cell and '
+     'spatial inversion leave observables unchanged up to relabelling.',
+     ['permute_sites swap-sequence invariant and the form bookkeeping as deductive obligations: see contracts/c_mps.py (partly built)',
+      'compression numerics'],
+     [])
